@@ -111,6 +111,7 @@ pub fn cmd_stats(seed: u64, n: usize, opts: &[String]) {
     use fun::syntax::declarations::Declaration;
     let show: usize = opts.iter().find_map(|o| o.strip_prefix("show=").and_then(|v| v.parse().ok())).unwrap_or(3);
     let save: Option<String> = opts.iter().find_map(|o| o.strip_prefix("save=").map(|s| s.to_string()));
+    let all_backends = opts.iter().any(|o| o == "backends=all");
     let (mut parse_ok, mut check_ok, mut pipe_ok) = (0usize, 0usize, 0usize);
     let mut rejected: Vec<(usize, String, String)> = Vec::new();
     let mut reject_classes: BTreeMap<String, usize> = BTreeMap::new();
@@ -187,6 +188,7 @@ pub fn cmd_stats(seed: u64, n: usize, opts: &[String]) {
         check_ok += 1;
         // the rest of the real pipeline, stage by stage
         let stage = std::cell::Cell::new("fun2core");
+        let other_backend_panics: std::cell::RefCell<Vec<String>> = std::cell::RefCell::new(Vec::new());
         let r = std::panic::catch_unwind(std::panic::AssertUnwindSafe(|| {
             let core = fun2core::program::compile_prog(checked);
             stage.set("focus");
@@ -195,6 +197,17 @@ pub fn cmd_stats(seed: u64, n: usize, opts: &[String]) {
             let mut ax = core2axcut::program::shrink_prog(focused);
             stage.set("linearize");
             ax.linearize();
+            if all_backends {
+                // the other two back ends, each on its own so that they do not mask the x86-64 result
+                for (name, f) in [("aarch64 codegen", (|a| { let _ = axcut2backend::coder::compile::<axcut2aarch64::Backend, _, _, _>(a); }) as fn(axcut::syntax::Prog)),
+                                  ("rv64 codegen", (|a| { let _ = axcut2backend::coder::compile::<axcut2rv64::Backend, _, _, _>(a); }) as fn(axcut::syntax::Prog))] {
+                    let a2 = ax.clone();
+                    if let Err(e) = std::panic::catch_unwind(std::panic::AssertUnwindSafe(|| f(a2))) {
+                        let m = panic_msg(e);
+                        other_backend_panics.borrow_mut().push(format!("{name}: {}", m.chars().take(80).collect::<String>()));
+                    }
+                }
+            }
             stage.set("x86_64 codegen");
             let code = axcut2backend::coder::compile::<axcut2x86_64::Backend, _, _, _>(ax);
             stage.set("x86_64 print");
@@ -203,6 +216,11 @@ pub fn cmd_stats(seed: u64, n: usize, opts: &[String]) {
             let s = axcut2x86_64::into_routine::into_x86_64_routine(code).print_to_string(None);
             (nargs, s.len())
         }));
+        for c in other_backend_panics.borrow().iter() {
+            let first = !panic_classes.contains_key(c);
+            *panic_classes.entry(c.clone()).or_insert(0) += 1;
+            if first { panics.push((k, format!("panic in {c}"), p.text.clone())); }
+        }
         match r {
             Ok((nargs, len)) => {
                 if nargs != p.main_arity { panics.push((k, format!("number_of_arguments {nargs} != main arity {}", p.main_arity), p.text.clone())); }
